@@ -6,6 +6,8 @@
 //!
 //! Adding an op: write a `fn(&[&str]) -> String` and add one arm to `dispatch`.
 
+mod builder;
+mod laws;
 mod observe;
 
 use std::convert::TryFrom;
@@ -25,10 +27,10 @@ use hls_m3u8::types::{
 };
 use hls_m3u8::{MasterPlaylist, MediaPlaylist, RequiredVersion};
 
-const PANIC: &str = "panic";
-const ERR: &str = "err";
-const BADINPUT: &str = "badinput";
-const BADOP: &str = "badop";
+pub(crate) const PANIC: &str = "panic";
+pub(crate) const ERR: &str = "err";
+pub(crate) const BADINPUT: &str = "badinput";
+pub(crate) const BADOP: &str = "badop";
 
 // ---------------------------------------------------------------- protocol loop
 
@@ -102,11 +104,11 @@ fn dispatch(op: &str, args: &[&str]) -> String {
 // ---------------------------------------------------------------- helpers
 
 /// Runs `f`, turning a panic into `None`.
-fn guard<T>(f: impl FnOnce() -> T) -> Option<T> {
+pub(crate) fn guard<T>(f: impl FnOnce() -> T) -> Option<T> {
     catch_unwind(AssertUnwindSafe(f)).ok()
 }
 
-fn hex_digit(c: u8) -> Option<u8> {
+pub(crate) fn hex_digit(c: u8) -> Option<u8> {
     match c {
         b'0'..=b'9' => Some(c - b'0'),
         b'a'..=b'f' => Some(c - b'a' + 10),
@@ -116,7 +118,7 @@ fn hex_digit(c: u8) -> Option<u8> {
 }
 
 /// Hex-encoded UTF-8 text argument number `i`.
-fn text_arg(args: &[&str], i: usize) -> Option<String> {
+pub(crate) fn text_arg(args: &[&str], i: usize) -> Option<String> {
     let hex = args.get(i)?.as_bytes();
     if hex.len() % 2 != 0 {
         return None;
@@ -153,7 +155,7 @@ fn push_text(out: &mut String, t: &Option<String>) {
 // ---------------------------------------------------------------- playlists
 
 /// The two playlist kinds, so that the playlist ops are written once.
-trait Kind: 'static {
+pub(crate) trait Kind: 'static {
     type P<'a>: fmt::Display + RequiredVersion + Clone + PartialEq;
     /// Name of the result node of the round-trip ops.
     const RES: &'static str;
@@ -165,7 +167,7 @@ trait Kind: 'static {
     fn eq_owned(x: &Self::P<'_>, o: &Self::P<'static>) -> bool;
 }
 
-struct Media;
+pub(crate) struct Media;
 struct Master;
 
 impl Kind for Media {
@@ -229,7 +231,7 @@ fn roundtrip<K: Kind>(text: &str, excess: Option<Duration>) -> String {
 }
 
 /// `ok (RES DUMP (rv N) TEXT RE)` for a value that was obtained somehow.
-fn value_result<K: Kind>(x: &K::P<'_>, excess: Option<Duration>, size_hint: usize) -> String {
+pub(crate) fn value_result<K: Kind>(x: &K::P<'_>, excess: Option<Duration>, size_hint: usize) -> String {
     let mut out = String::with_capacity(64 + size_hint * 8);
     out.push_str("ok (");
     out.push_str(K::RES);
